@@ -5,7 +5,7 @@
    carry only the parameters of a synthetic input — both sides derive the same records from (n, seed, ...) —
    and order-sensitive fingerprints (two polynomial hashes modulo 2^63 over Coq's machine integers) of what the
    implementation returned; the fingerprints of the expected lists are computed here. *)
-From PF Require Export Base.Bytes Formats.Stl Check.Common.
+From PF Require Export Base.Bytes Formats.Stl Formats.StlNormal Formats.StlIo Check.Common.
 From Coq Require Import Uint63.
 Open Scope N_scope.
 
@@ -13,8 +13,13 @@ Open Scope N_scope.
 Record bigmesh := { b_nverts : N; b_nidx : N; b_idx_fp : Z * Z; b_pos_fp : Z * Z; b_nrm_fp : option (Z * Z) }.
 
 Inductive case :=
-| CMesh (idx : list nat) (pos : option (list vec)) (fns : list vec)
+(* nrm: the vertex normals as integer triples (common power-of-two scale dropped; None: the mesh has no Normal
+   attribute, or its normals are not handed over exactly and the harness judges the value with a tolerance) *)
+| CMesh (idx : list nat) (pos : option (list vec)) (nrm : option (list zvec)) (fns : list vec)
         (impl_bytes : list N) (impl_read : option rmesh)
+(* stl.Write / stl.WriteMesh of a file of [total] bytes into a writer that accepts [cap] bytes and then fails:
+   did the call report an error? *)
+| CWriteFail (total cap : N) (reported : bool)
 | CBytes (input : list N) (impl_out : option (list N))
 | CRead (input : list N) (impl_read : option rmesh)
 (* synthetic file of n records (zn: all stored normals zero), followed by [extra] trailing bytes or cut short by
@@ -95,6 +100,21 @@ Definition axis (d : N) : vec :=
   | 0 => (one, 0, 0) | 1 => (mone, 0, 0) | 2 => (0, one, 0) | 3 => (0, mone, 0) | 4 => (0, 0, one) | _ => (0, 0, mone)
   end.
 Definition mesh_fn (ndir : option N) : vec := match ndir with Some d => axis d | None => vzero end.
+(* vertex v of a large mesh carries the normal  vsign v * (odd magnitude) * 2^(seed mod 3)  along axis ndir: the sum
+   of three odd numbers is never zero, so the facet normal of a triangle is exactly + or - that axis, by the sign
+   of the sum over its three corners — it varies from triangle to triangle with no power-of-two period *)
+Definition vnum (seed v : N) : Z :=
+  let mag := Z.of_N (2 * N.land (v / 3 + seed) 3 + 1) in
+  let h := v mod 7 + 2 * (v mod 11) + v / 1000 + seed in
+  if N.land h 1 =? 0 then mag else (- mag)%Z.
+Definition mesh_fn_at (ndir : option N) (seed nv a b c : N) (t : N) : vec :=
+  match ndir with
+  | None => vzero
+  | Some d =>
+      let s := (vnum seed (idxf nv a b c (3 * t)) + vnum seed (idxf nv a b c (3 * t + 1))
+                + vnum seed (idxf nv a b c (3 * t + 2)))%Z in
+      if (0 <? s)%Z then axis d else axis (N.lxor d 1)
+  end.
 
 (* ---------- expected observables of a large ReadMesh result, from the records it should be made of ---------- *)
 Definition triple {A} (x : A) : list A := [x; x; x].
@@ -116,7 +136,7 @@ Definition announced (input : list N) : option N := de_le32 (firstn 4 (skipn 80 
 
 (* records of a large synthetic mesh, as the property describes them: corner j is vertex idxf j *)
 Definition bigmesh_tris (n nv a b c seed : N) (ndir : option N) : list tri :=
-  tris_from (N.to_nat n) 0 (fun _ => mesh_fn ndir) (fun j => synth_vec seed (idxf nv a b c j)).
+  tris_from (N.to_nat n) 0 (mesh_fn_at ndir seed nv a b c) (fun j => synth_vec seed (idxf nv a b c j)).
 
 (* the model is executed on the materialised bytes of a large file up to this many records; beyond, the
    model's answer is taken from the theorems read_write_trailing / read_prefix_rejected (StlProofs) *)
@@ -160,11 +180,29 @@ Fixpoint quiet_recs (fuel : nat) (l : list N) : list N :=
   end.
 Definition quiet_file (l : list N) : list N := firstn 84 l ++ quiet_recs (length l) (skipn 84 l).
 
+(* ---------- independent look at a file: little-endian word at a byte offset (no record parser) ---------- *)
+Definition word_at (l : list N) (off : nat) : N :=
+  match skipn off l with
+  | b0 :: b1 :: b2 :: b3 :: _ => b0 + 256 * b1 + 65536 * b2 + 16777216 * b3
+  | _ => 0
+  end.
+Definition vec_at (l : list N) (off : nat) : vec := (word_at l off, word_at l (off + 4), word_at l (off + 8)).
+(* corner positions and per-corner normals of the n records of a file, by offsets *)
+Definition file_pos (l : list N) (n : nat) : list vec :=
+  flat_map (fun t => [vec_at l (96 + 50 * t); vec_at l (108 + 50 * t); vec_at l (120 + 50 * t)]) (seq 0 n).
+Definition file_nrm (l : list N) (n : nat) : option (list nrm) :=
+  let ns := map (fun t => vec_at l (84 + 50 * t)) (seq 0 n) in
+  if existsb (fun v => negb (vec_zero v)) ns then Some (flat_map (fun v => triple (vec_nrm v)) ns) else None.
+
 (* ---------- model vs implementation ---------- *)
 Definition corr_ok (c : case) : bool :=
   match c with
-  | CMesh idx pos fns ib ir =>
+  | CMesh idx pos nrm fns ib ir =>
       opt_eqb bytes_eqb (write_mesh idx pos fns) (Some ib) && opt_eqb rmesh_eqb (read_mesh ib) ir
+      (* the facet-normal words handed to the model are the normalised means of the corner normals *)
+      && match nrm with Some nz => mesh_normals_ok idx nz fns | None => true end
+  | CWriteFail total cap reported =>
+      Bool.eqb reported (snd (write_to (N.to_nat cap) (repeat 0 (N.to_nat total))))
   | CBytes input out =>
       opt_eqb bytes_eqb (match read_chunked stl_chunk input with Some (h, ts) => Some (write h (map quiet_tri ts)) | None => None end) out
   | CRead input ir => opt_eqb rmesh_eqb (option_map quiet_rmesh (read_mesh input)) ir
@@ -198,9 +236,19 @@ Definition corr_ok (c : case) : bool :=
 (* ---------- the property itself, evaluated on what the implementation returned (direct oracle) ---------- *)
 Definition prop_ok (c : case) : bool :=
   match c with
-  | CMesh idx pos fns ib ir =>
+  | CWriteFail total cap reported => Bool.eqb reported (cap <? total)
+  | CMesh idx pos nrm fns ib ir =>
       let n := match pos with Some _ => (length idx / 3)%nat | None => O end in
       Nat.eqb (length ib) (84 + 50 * n) &&
+      (* facet-normal VALUE, exactly: the three words at offset 84 + 50 t of the implementation's bytes are the
+         float32 roundings of s / |s|, s = sum of the corner normals of triangle t (integer arithmetic, StlNormal.v);
+         independently of that: the stored vector has unit length up to float32 rounding *)
+      match nrm, pos with
+      | Some nz, Some _ =>
+          let stored := map (fun t => (word_at ib (84 + 50 * t), word_at ib (88 + 50 * t), word_at ib (92 + 50 * t))) (seq 0 n) in
+          mesh_normals_ok idx nz stored && forallb unit_ok stored
+      | _, _ => true
+      end &&
       (* record layout, by the independent record parser [read] on the implementation's bytes: count field n,
          12 little-endian float words per record = the corner positions gathered through the index *)
       match pos with
@@ -239,7 +287,12 @@ Definition prop_ok (c : case) : bool :=
       match announced input with
       | Some n =>
           let len := N.of_nat (length input) in
-          let ok := fun m => (r_nverts m =? N.to_nat (3 * n))%nat && list_eqb Nat.eqb (r_idx m) (seq 0 (N.to_nat (3 * n))) in
+          (* same n triangles in order: corner positions and stored facet normals are the words found at the record
+             offsets of the (quieted: F1) input; Flat where the stored normal is +-0; no Normal attribute without one *)
+          let q := quiet_file input in
+          let ok := fun m => (r_nverts m =? N.to_nat (3 * n))%nat && list_eqb Nat.eqb (r_idx m) (seq 0 (N.to_nat (3 * n)))
+                             && ((n =? 0) || (list_eqb vec_eqb (r_pos m) (file_pos q (N.to_nat n))
+                                              && opt_eqb (list_eqb nrm_eqb) (r_nrm m) (file_nrm q (N.to_nat n)))) in
           if len <? 84 + 50 * n then opt_none ir
           else if len =? 84 + 50 * n then opt_all ok ir
           else opt_any ok ir     (* trailing bytes: not a well-formed file; if accepted, the announced records *)
@@ -252,8 +305,9 @@ Definition prop_ok (c : case) : bool :=
       let rd_ok := fun '(cnt, f) => (cnt =? n) && fp_eqb f (fp_records hdr ts) in
       let wr_ok := fun '(len, f) => (len =? 84 + 50 * n) && fp_eqb f (fp_file hdr ts []) in
       let rm_ok := bigmesh_matches ts in
-      if 0 <? cut then opt_none rd && opt_none wr && opt_none rm
-      else if extra =? 0 then opt_all rd_ok rd && opt_all wr_ok wr && opt_all rm_ok rm
+      (* the input has 84 + 50 n + extra - cut bytes: cut into the records: rejected; exactly the records: accepted *)
+      if extra <? cut then opt_none rd && opt_none wr && opt_none rm
+      else if extra =? cut then opt_all rd_ok rd && opt_all wr_ok wr && opt_all rm_ok rm
       else opt_any rd_ok rd && opt_any wr_ok wr && opt_any rm_ok rm
   | CBigMesh n nv a b c part seed ndir wr rm =>
       opt_all (fun '(len, _) => len =? 84 + 50 * n) wr
